@@ -22,15 +22,35 @@ where
 
 /// An element of a list which is allowed to contain values we do not know about.
 ///
-/// Being untagged, the element is first read in full from the input and only then interpreted
-/// as a `T`. This way only a well-formed element of an unknown shape ends up as `None`, whereas
-/// errors of the underlying reader (such as the input ending in the middle of the list) are
-/// still reported instead of being mistaken for an unknown value.
-#[derive(Debug, Deserialize)]
-#[serde(untagged)]
+/// The element is first read in full from the input and only then interpreted as a `T`. This way
+/// only a well-formed element of an unknown shape ends up as `None`, whereas errors of the
+/// underlying reader (such as the input ending in the middle of the list) are still reported
+/// instead of being mistaken for an unknown value.
+///
+/// The element is buffered as a [`ciborium::value::Value`], which grows with the data actually
+/// read. Serde's own buffering (as used by untagged enums) reserves memory according to the
+/// lengths declared in the input, once per nesting level, which lets a few bytes of input
+/// request many megabytes.
+#[derive(Debug)]
 enum PossiblyUnknown<T> {
     Some(T),
-    None(serde::de::IgnoredAny),
+    None,
+}
+
+impl<'de, T> Deserialize<'de> for PossiblyUnknown<T>
+where
+    T: Deserialize<'de>,
+{
+    fn deserialize<D>(de: D) -> Result<Self, D::Error>
+    where
+        D: Deserializer<'de>,
+    {
+        let buffered = ciborium::value::Value::deserialize(de)?;
+        Ok(match buffered.deserialized() {
+            Ok(elem) => Self::Some(elem),
+            Err(_) => Self::None,
+        })
+    }
 }
 
 pub(crate) fn ignore_unknown_opt_vec<'de, D, T>(de: D) -> Result<Option<Vec<T>>, D::Error>
